@@ -183,6 +183,7 @@ def noise(r, f):
 
 def valid_file(r, max_sections=6, fancy=True):
     f = File()
+    pool = []
     for _ in range(r.randint(0, 2)):
         noise(r, f)
     for _ in range(r.randint(0, max_sections)):
@@ -201,7 +202,9 @@ def valid_file(r, max_sections=6, fancy=True):
                 sys = None
                 lab = lab.strip()
             else:
-                lab = label(r)
+                # the same label text often recurs in a file (with a different sys list for applications)
+                lab = r.choice(pool) if pool and r.random() < 0.35 else label(r)
+                pool.append(lab)
                 f.add(pad_eq(r, "label", lab), "label")
                 parts = lab.split(":")
                 lab = ":".join((parts + ["", "", "", ""])[:4])
